@@ -2,6 +2,8 @@ package main
 
 import (
 	"errors"
+	"fmt"
+	"io"
 	"net"
 	"sync"
 	"time"
@@ -93,7 +95,7 @@ func (w *wire) read(p []byte) (int, error) {
 	defer w.mu.Unlock()
 	for w.queued == 0 {
 		if w.closed {
-			return 0, errClosed
+			return 0, io.EOF
 		}
 		if w.nonblock {
 			return 0, errWouldBlock
@@ -136,6 +138,10 @@ func (w *wire) read(p []byte) (int, error) {
 		got += c
 	}
 	return n, nil
+}
+
+func devString(read, want, full, got int) string {
+	return fmt.Sprintf("read#%d(want %d, available %d) -> %d", read, want, full, got)
 }
 
 func (w *wire) consume(n int) {
